@@ -9,6 +9,31 @@ import os
 import sys
 
 
+def _fit_action(act, b, out, models, reuse_pool, zoo, hashlib, np, contextlib, io):
+        with contextlib.redirect_stdout(io.StringIO()):
+            data = zoo.build_baseline(b)
+            pkey = (b["family"], b["profile"])
+            if len(act) > 3 and act[3] and pkey in reuse_pool:
+                m = reuse_pool[pkey]  # the same object is fitted again; it no longer is the earlier meter's model
+                for k in [k for k, v in models.items() if v[0] is m]:
+                    del models[k]
+            else:
+                m = zoo.new_model(b)
+            reuse_pool[pkey] = m
+            if b["family"] == "caltrack":
+                m.fit(data)
+            else:
+                m.fit(data, ignore_disqualification=True)
+            js = m.to_json()
+            rep = zoo.build_reporting(b, {"start_day": b["start_day"] + 400, "n": 60, "noise_seed": 77, "observed": True, "T_shift": 0.0, "T_scale": 1.0})
+            p = zoo.predict(m, b, rep)
+        h1 = hashlib.sha256(js.encode()).hexdigest()
+        cols = [c for c in ("predicted", "predicted_unc", "heating_load", "cooling_load", "predicted_uncertainty") if c in p.columns]
+        h2 = hashlib.sha256(b"".join(np.ascontiguousarray(p[c].values.astype("float64")).tobytes() for c in cols)).hexdigest()
+        out.append({"meter": act[2], "model": h1, "prediction": h2})
+        models[act[2]] = (m, b, rep)
+
+
 def main():
     job = json.loads(sys.argv[1])
     keep_threads = {k: os.environ.get(k) for k in ("OMP_NUM_THREADS", "MKL_NUM_THREADS", "OPENBLAS_NUM_THREADS")}
@@ -37,29 +62,17 @@ def main():
         kind = act[0]
         if kind == "fit":
             b = act[1]
-            with contextlib.redirect_stdout(io.StringIO()):
-                data = zoo.build_baseline(b)
-                pkey = (b["family"], b["profile"])
-                if len(act) > 3 and act[3] and pkey in reuse_pool:
-                    m = reuse_pool[pkey]  # the same object is fitted again; it no longer is the earlier meter's model
-                    for k in [k for k, v in models.items() if v[0] is m]:
-                        del models[k]
-                else:
-                    m = zoo.new_model(b)
-                reuse_pool[pkey] = m
-                if b["family"] == "caltrack":
-                    m.fit(data)
-                else:
-                    m.fit(data, ignore_disqualification=True)
-                js = m.to_json()
-                rep = zoo.build_reporting(b, {"start_day": b["start_day"] + 400, "n": 60, "noise_seed": 77, "observed": True, "T_shift": 0.0, "T_scale": 1.0})
-                p = zoo.predict(m, b, rep)
-            h1 = hashlib.sha256(js.encode()).hexdigest()
-            cols = [c for c in ("predicted", "predicted_unc", "heating_load", "cooling_load", "predicted_uncertainty") if c in p.columns]
-            h2 = hashlib.sha256(b"".join(np.ascontiguousarray(p[c].values.astype("float64")).tobytes() for c in cols)).hexdigest()
-            out.append({"meter": act[2], "model": h1, "prediction": h2})
-            models[act[2]] = (m, b, rep)
-        elif kind == "repredict":
+            try:
+                _fit_action(act, b, out, models, reuse_pool, zoo, hashlib, np, contextlib, io)
+            except Exception as e:  # reported to the parent: raising here but not in the reference is a difference
+                import traceback
+
+                tb = traceback.extract_tb(e.__traceback__)
+                lib = [f for f in tb if "/opendsm/" in f.filename]
+                where = ("%s:%s" % (lib[-1].filename.split("/opendsm/")[-1], lib[-1].name)) if lib else "harness"
+                out.append({"meter": act[2], "model": None, "prediction": None, "error": "%s@%s: %s" % (type(e).__name__, where, str(e)[:120]), "lib": bool(lib)})
+            continue
+        if kind == "repredict":
             if act[1] in models:
                 m, b, rep = models[act[1]]
                 with contextlib.redirect_stdout(io.StringIO()):
